@@ -185,6 +185,23 @@ amend('C17', note='for ANY number of threads and ANY schedule: no attribute is l
       'of the modelled functions shows up as model disagreement (no-failing-input-found) until the model is re-synchronised (procedure in notes/C17.md); preemption inside C code and the GIL\'s '
       'true granularity cannot be exhibited by the model (covered by the stress part only). Known findings C17:wrapped-window, C17:guard-race listed in known_findings.json.')
 
+amend('C02', 'Coq theorems about the Gallina model of _embed/embed for ALL valid signatures (Props/C02.v): soundness against the chain semantics (C02_sound), exactness unless an outer default '
+      'is cleared (C02_exact, side condition forced by a refutation), the raise condition (C02_raises), associativity of the n-ary fold for any arity (C02_assoc), neutral element; '
+      'bounded sweeps kept as a cross-check; correspondence on U(2,{a,b})xU(2,{c,d}) with 4 flag combinations; soundness/exactness/raise-condition/associativity decided on implementation outputs.',
+      note='the chain semantics (calling outer, which forwards its surplus) is a Gallina definition; the flat n-ary chain is proved level by level only (C02_sound3_partial).',
+      technique='Coq proof for all signatures over a Gallina model + extracted deciders + correspondence')
+amend('C04', 'forwards = embed o mask proved as an unfolding of the model and checked on the implementation in parameters and provenance; executing the declared wrapper proved for ALL valid signatures '
+      '(C04_exec_sound, C04_exec_exact, C04_partial_sound/exact against the all-optional inner, raise conditions; Props/C04.v); chain soundness/exactness decided on implementation outputs; '
+      'real wrapper programs (function, method, super, apply_forwards_to_super incl. a shared decorator object, emulate, partial) executed on every call shape.')
+amend('C18', note='order independence is proved for every decorator form (start=, end=, autokwoargs, annotate included: C18_order_forms), reclamation and refinement to the cache-less spec are characterised '
+      'exactly (C18_reclaim_exact, C18_refines_exact); what is order dependent is admissibility itself (refutations checked on the code); reachability is an abstraction of CPython\'s GC; '
+      'known findings C18:cache-leak, C18:stale-cache, C18:posoargs-self-rebind listed in known_findings.json.')
+amend('C09', note='pairs: exactness in both branches (C09_merge_exact); any number of inputs: a successful merge is exact (C09_merge_exact_n_ok), the raise clause is false for three inputs '
+      '(known finding C09:nary-raise-order, refutation C09_merge_exact_n_err_refuted).')
+amend('C03', note='soundness and the closed form of what each hide flag removes are proved for all signatures and all 16 flag sets (C03_mask_hide_sound, C03_mask_hide_shape); the converse under hide flags is decided per run only.')
+amend('C19', note='hypothesis of the exactness theorem: no bound keyword is spelled like a star parameter or like a positional-only parameter the bound positionals do not consume (both conjuncts forced by refutations); '
+      'shape clauses and permutation invariance of the bound keywords proved for all signatures.')
+
 
 def main():
     props = [json.loads(l)['id'] for l in open(os.path.join(VERIF, 'properties.jsonl'))]
